@@ -354,6 +354,19 @@ class BuiltinMixin(CallMixin):
             if meth == "__exit__":
                 return [(st, None)]
             raise EngineError(f"memoryview method {meth}")
+        if kind == "list" and st.has(self_v, "$len"):
+            # a list whose length became symbolic at a loop head: only its length is tracked
+            n = st.get(self_v, "$len")
+            if meth == "append":
+                st.set(self_v, "$len", n + 1)
+                return [(st, None)]
+            if meth == "extend":
+                st.set(self_v, "$len", n + ops.length(st, args[0]))
+                return [(st, None)]
+            if meth == "clear":
+                st.set(self_v, "$len", z3.IntVal(0))
+                return [(st, None)]
+            raise EngineError(f"list method {meth} on a list of symbolic length")
         if kind == "list":
             items = st.get(self_v, "items")
             if meth == "append":
